@@ -23,7 +23,7 @@ only noticed because the hub's polling interval expires counts as lost.
 PART 3.  The hub's alternative select function, pox.lib.epoll_select.EpollSelect, against select.select on real
 local sockets, every short sequence of calls.
 
-PART 4.  The inline hub's wake-up pipe between two idles: large programs of the same grammar (N tasks started at once, a
+PART 4.  The hub's wake-up pipe between two idles (inline hub; the registration forms also with the threaded hub, default schedule): large programs of the same grammar (N tasks started at once, a
 task woken N times, N sleepers, N timers, next to a waiter) with N over a boundary lattice around the multiples of the
 pinger's read size (1024) and around a pipe's capacity (65536); a read of the empty pipe / a write to the full one on the
 scheduler thread is a hang (see VOs, run_ping_part).
@@ -32,7 +32,7 @@ Oracle (parts 1, 2) = invariants on the recorded trace (task, step, virtual time
 steps in program order, one at a time, on the scheduler thread; a task is never in the ready queue twice or while
 it runs (also with several tasks of priority < 1 and runs of high random draws); a timed wake never before the
 requested instant; a blocked task resumes only after a sibling scheduled
-it; a Select wake carries the task's own readable fd or an expired timeout; timers fire at >= each period, the
+it; a Select wake carries the task's own readable (or hung-up) fd or an expired timeout; timers fire at >= each period, the
 expected number of times, never after cancel(); at the horizon nothing runnable is left un-run and every
 unfinished task waits for something that can never happen; a raising task leaves the others exactly as if it had
 ended there (differential twin) whatever it raises (Exception, SystemExit, GeneratorExit, KeyboardInterrupt, another
@@ -41,7 +41,7 @@ particular nothing it raises ends Scheduler.run(); a CallBlocking resumes its ta
 (None, exc_info), after the function finished; a sub-task's value / exception / plain return arrives at exactly its caller, also
 through two levels of sub-task calls; a Send resumes its task once, with the byte count, after all bytes reached the
 socket complete and in order whatever each send() accepted; a Recv hands over the next bytes of the stream or None
-after its timeout.
+after its timeout (b"" or None once the peer has hung up); no I/O event ends Scheduler.run() or the hub thread.
 
 Debugging aids: --only inline | inline:N (every N-th program) | suite:K (K-th inline suite) | threaded | threaded:K | pinger | epoll.
 """
@@ -54,6 +54,9 @@ PID = "C06"
 T0 = 1000.0         # virtual epoch
 DT = 0.625          # virtual seconds a step may consume (dyadic, so all clock arithmetic is exact)
 FD_AT = (None, 0.5, 1.5)    # fd readiness scripts: never, at T0+0.5, at T0+1.5
+# ... plus, in the suites that say so (hup=True), the peer hanging up at T0+0.5 without having sent anything: from then on the
+# socket is at end-of-file (select reports it readable and recv() returns b""; epoll reports EPOLLIN|EPOLLHUP, whatever it was asked)
+FD_FATES_HUP = FD_AT + (("hup", 0.5),)
 RX_STREAM = b"hello"                                    # what every task's socket has to read, from its readiness instant on
 TX_BIG = bytes((i * 7 + (i >> 8)) & 0xff for i in range(20000))     # > 2 blocks of Send's default block_size (8192)
 TX_SMALL = b"small"
@@ -345,17 +348,28 @@ class VFd (object):
   """A task's fake stream socket.  From its readiness instant on it has RX_STREAM to read (it stays readable until
   that has been received); it is always writable.  How many bytes a send() accepts / a recv() hands out are
   environment choices (default: everything; deviations: half, one byte, EAGAIN / one byte)."""
-  def __init__ (self, w, name, ready_at):
+  def __init__ (self, w, name, ready_at, hup_at=None):
     self.w = w; self.name = name; self.ready_at = ready_at
+    self.hup_at = hup_at          # the instant the peer hangs up (a socket has data to read or is hung up on, not both)
     self.fd = w.new_fileno(self)
     self.rx_pos = 0
     self.tx = b""
     self.eagain = 0               # number of send() calls answered with EAGAIN
     self.sends = []               # (offered, accepted) per send() call
-  def readable (self):
+  def has_data (self):
     return self.ready_at is not None and self.ready_at <= self.w.now() and self.rx_pos < len(RX_STREAM)
+  def eof (self):
+    return self.hup_at is not None and self.hup_at <= self.w.now()
+  def readable (self):
+    return self.has_data() or self.eof()
   def will_be_readable (self):
-    return self.ready_at is not None and self.rx_pos < len(RX_STREAM)
+    return (self.ready_at is not None and self.rx_pos < len(RX_STREAM)) or self.hup_at is not None
+  def next_readable (self):
+    """The instant from which it is readable (asked only when will_be_readable())."""
+    return self.ready_at if (self.ready_at is not None and self.rx_pos < len(RX_STREAM)) else self.hup_at
+  def fate (self):
+    return ("hung up on at +%s" % (self.hup_at - T0) if self.hup_at is not None else
+            "never" if self.ready_at is None else "at +%s" % (self.ready_at - T0))
   def writable (self): return True
   def errored (self): return False
   def fileno (self): return self.fd
@@ -372,7 +386,8 @@ class VFd (object):
     return k
   def recv (self, n, flags=0):
     w = self.w
-    if not self.readable():
+    if not self.has_data():
+      if self.eof(): return b""
       import errno
       raise OSError(errno.EAGAIN, "would block")
     avail = min(n, len(RX_STREAM) - self.rx_pos)
@@ -441,6 +456,7 @@ class World (object):
     self.hung = False             # the scheduler thread blocked for good in its wake-up pipe
     self.vos = None               # the virtual os the library's pinger runs on
     self.max_steps = MAX_STEPS; self.max_selects = MAX_SELECTS
+    self.hup = False              # part 1: the fd environment includes the peer hanging up
 
   # ---- recording ----------------------------------------------------------------------------
   def fail (self, clause, what):
@@ -525,8 +541,13 @@ class World (object):
         elif not any(OPS[o][0] in ("select", "recv") for o in r.spec):
           at = None
         else:
-          at = FD_AT[self.ctx.choose(len(FD_AT), "fd@%s" % r.name, costly=False)]
-        r.fd = VFd(self, r.name, None if at is None else T0 + at)
+          # (no hang-up on a socket the task also sends on: what send() does then is not modelled)
+          fates = FD_FATES_HUP if self.hup and not any(OPS[o][0] == "send" for o in r.spec) else FD_AT
+          at = fates[self.ctx.choose(len(fates), "fd@%s" % r.name, costly=False)]
+        if isinstance(at, (tuple, list)):
+          r.fd = VFd(self, r.name, None, hup_at=T0 + at[1])
+        else:
+          r.fd = VFd(self, r.name, None if at is None else T0 + at)
     for r, e in zip(self.recs, self.prog):
       if r.kind == "t":
         if r.idx == 0:
@@ -685,12 +706,16 @@ class World (object):
         self.fail("select-wake:bad-value", "%s resumed from Select with %r" % (r.name, v))
       else:
         rr, ww, xx = v
-        if ww or xx or (rr and (len(rr) != 1 or rr[0] is not r.fd)):
+        # (its own fd may also come back as exceptional once the peer has hung up: the epoll hub reports that unasked)
+        if ww or len(rr) > 1 or len(xx) > 1 or any(x is not r.fd for x in rr + xx):
           self.fail("select-wake:foreign-fds", "%s resumed from Select([own fd]) with %r" % (r.name, v))
-        elif rr:
+        elif xx and not r.fd.eof():
+          self.fail("select-wake:reports-unready-fd", "%s resumed at +%s with its fd reported exceptional; nothing has happened to it (readable %s)"
+                    % (r.name, now - T0, r.fd.fate()))
+        elif rr or xx:
           if not r.fd.readable():
             self.fail("select-wake:reports-unready-fd", "%s resumed at +%s with its fd reported readable; it is readable %s"
-                      % (r.name, now - T0, "never" if r.fd.ready_at is None else "at +%s" % (r.fd.ready_at - T0)))
+                      % (r.name, now - T0, r.fd.fate()))
         else:
           if r.req is None or now < r.req:
             self.fail("select-wake:empty-before-timeout", "%s resumed at +%s from Select with no fd ready; timeout %s"
@@ -714,6 +739,10 @@ class World (object):
         r.rx_got += bytes(v)
         if r.fd.ready_at is None or now < r.fd.ready_at:
           self.fail("recv:data-before-readable", "%s received %r at +%s, before its socket had anything to read" % (r.name, v, now - T0))
+      elif isinstance(v, (bytes, bytearray)) and r.fd.eof():
+        pass                      # end of file: the peer has hung up
+      elif v is None and r.fd.eof():
+        pass                      # ... which the hub may also report as a socket error (Recv documents None for that)
       elif v is None:
         if r.req is None or now < r.req:
           self.fail("recv:empty-before-timeout", "%s resumed at +%s from Recv with None; timeout %s"
@@ -821,10 +850,10 @@ class World (object):
           self.fail("lost-wake:" + ("number" if OPS[r.op][0] == "num" else "Sleep"), what)
         elif s == "select":
           if r.req is not None: self.fail("lost-wake:Select-timeout", what)
-          elif r.fd.will_be_readable(): self.fail("lost-wake:Select-fd-readable", what + "; fd readable at +%s" % (r.fd.ready_at - T0))
+          elif r.fd.will_be_readable(): self.fail("lost-wake:Select-fd-readable", what + "; fd readable %s" % r.fd.fate())
         elif s == "recv":
           if r.req is not None: self.fail("lost-wake:Recv-timeout", what)
-          elif r.fd.will_be_readable(): self.fail("lost-wake:Recv-readable", what + "; socket readable at +%s" % (r.fd.ready_at - T0))
+          elif r.fd.will_be_readable(): self.fail("lost-wake:Recv-readable", what + "; socket readable %s" % r.fd.fate())
         elif s == "send":
           self.fail("lost-wake:Send" + (":after-a-send()-that-took-nothing" if r.fd.eagain > r.eagain_before else ""),
                     what + "; the socket took %d of %d bytes; send() calls: %r" % (len(r.fd.tx), len(r.tx_expect), r.fd.sends[-4:]))
@@ -873,7 +902,7 @@ class World (object):
     lines = [prog_text(self.prog)]
     for r in self.recs:
       if r.fd is not None:
-        lines.append("  %s's fd/socket readable: %s%s" % (r.name, "never" if r.fd.ready_at is None else "at +%s" % (r.fd.ready_at - T0),
+        lines.append("  %s's fd/socket readable: %s%s" % (r.name, r.fd.fate(),
                                                       "; send() calls (offered, accepted): %r" % (r.fd.sends,) if r.fd.sends else ""))
     lines.append("  trace (entity, step, virtual time): " + ", ".join("%s.%s@+%s" % (n, s, t - T0) for n, s, t in self.trace))
     for r in self.recs:
@@ -1183,7 +1212,7 @@ class VSelect (object):
     wo = [o for o in wl if isinstance(o, VFd) and o.writable()]
     if ro or wo: return ro, wo, []
     now = self.clock.now
-    cands = [o.ready_at for o in rl if isinstance(o, VFd) and o.will_be_readable()]
+    cands = [o.next_readable() for o in rl if isinstance(o, VFd) and o.will_be_readable()]
     if timeout is not None and timeout < POLL:
       cands.append(now + max(0, timeout))
     if not cands:
@@ -1229,6 +1258,11 @@ class VEpoll (object):
     ev = {}
     for o in ro: ev[o.fileno()] = ev.get(o.fileno(), 0) | m.EPOLLIN
     for o in wo: ev[o.fileno()] = ev.get(o.fileno(), 0) | m.EPOLLOUT
+    # a hang-up is reported for every registered descriptor, whatever events it is registered for (epoll_ctl(2))
+    for fd in self.reg:
+      o = fdmap[fd]
+      if isinstance(o, VFd) and o.eof():
+        ev[fd] = ev.get(fd, 0) | m.EPOLLHUP
     return sorted(ev.items())
   def close (self): pass
 
@@ -1242,7 +1276,7 @@ def _mods ():
   return R, U
 
 
-def run_inline (ctx, prog, twin=None, epoll=False, big=None):
+def run_inline (ctx, prog, twin=None, epoll=False, big=None, hup=False):
   R, U = _mods()
   clock = VClockX()
   R.threading = threading; R.Thread = threading.Thread; R.Queue = queue.Queue
@@ -1264,6 +1298,7 @@ def run_inline (ctx, prog, twin=None, epoll=False, big=None):
   def advance (d): clock.now += d
   w.advance = advance
   w.epoll = epoll
+  w.hup = hup
   vs = VSelect(w, clock, U.Pinger)
   R.select = vs
   if epoll:
@@ -1299,16 +1334,16 @@ def run_inline (ctx, prog, twin=None, epoll=False, big=None):
   return w
 
 
-def run_inline_checked (ctx, prog, epoll=False):
+def run_inline_checked (ctx, prog, epoll=False, hup=False):
   """One execution plus, for every task that raised in it, the differential twin (the same task returning
   instead of raising, same environment choices): everything the other entities did must be identical."""
-  w = run_inline(ctx, prog, epoll=epoll)
+  w = run_inline(ctx, prog, epoll=epoll, hup=hup)
   if not w.abort and not w.crashed:
     for r in w.recs:
       if r.state != "raised": continue
       ctx2 = Ctx(ctx.choices())
       try:
-        w2 = run_inline(ctx2, prog, twin=r.idx, epoll=epoll)
+        w2 = run_inline(ctx2, prog, twin=r.idx, epoll=epoll, hup=hup)
         same = (len(ctx2.trace) == len(ctx.trace) and w2.trace == w.trace and w2.observation(r.idx) == w.observation(r.idx))
         diff = "" if same else _first_diff(w, w2, r.idx)
       except Divergence as e:
@@ -1331,6 +1366,7 @@ def _first_diff (w, w2, k):
 
 _SPACE = None        # the program space of the suite being run (built before the pool forks)
 _EPOLL = False       # the suite being run uses the epoll hub variant
+_HUP = False         # the fd environment of the suite being run includes the peer hanging up
 _STRIDE = 1          # debugging (--only inline:N): every N-th program only
 
 def _violation (rep, w, replay):
@@ -1355,11 +1391,11 @@ def _inline_worker (item):
         if w.ntwins: rep.extra["differential_twin_runs"] = rep.extra.get("differential_twin_runs", 0) + w.ntwins
         rep.outcome((w.observation(), tuple(k for k, _ in w.bad)))
         if w.bad:
-          _violation(rep, w, dict(part="inline", prog=_prog_to_json(prog), choices=ctx.choices(), epoll=_EPOLL))
+          _violation(rep, w, dict(part="inline", prog=_prog_to_json(prog), choices=ctx.choices(), epoll=_EPOLL, hup=_HUP))
         elif not rep.samples and w.nsteps >= 7 and len(ctx.trace) > 4 and any(c for c in ctx.choices()):
           rep.sample(dict(part="inline hub" + (" (epoll)" if _EPOLL else ""), program=prog_text(prog),
                           environment=[(l, c) for l, c in ctx.labelled() if c], observed=w.text().split("\n")[1:]))
-      explore(lambda ctx, prog=prog: run_inline_checked(ctx, prog, _EPOLL), dev_bound=dev, on_exec=on_exec)
+      explore(lambda ctx, prog=prog: run_inline_checked(ctx, prog, _EPOLL, _HUP), dev_bound=dev, on_exec=on_exec)
       n += 1
   finally:
     sys.stdout, sys.stderr = old
@@ -1391,7 +1427,7 @@ def inline_suites (cfg):
             ("2 tasks, <=4 yields (<=2 each), every priority assignment in {1,0.5}", OPS_PRIO, 2, 4, 1, 2, False, True),
             ("3 tasks, <=3 yields (<=1 each), every priority assignment in {1,0.5}", OPS_PRIO, 3, 3, 1, 1, False, True),
             ("2 entities, <=3 yields, timers built with started=False and start()ed by a task", OPS_PARK, 2, 3, 1, 3, TIMERS_PARK),
-            ("2 tasks, <=3 yields, epoll hub (use_epoll=True over a scripted epoll object)", OPS_EPOLL, 2, 3, 1, 3, False, False, dict(epoll=True)),
+            ("2 tasks, <=3 yields, epoll hub (use_epoll=True over a scripted epoll object), fd environment incl. the peer hanging up", OPS_EPOLL, 2, 3, 1, 3, False, False, dict(epoll=True, hup=True)),
             ("2 entities, <=3 yields, what a step / a blocking operation's execute() / a timer callback / a sub-task raises: Exception, SystemExit, GeneratorExit, KeyboardInterrupt, other BaseException",
              OPS_RAISE_CTX, 2, 3, 1, 3, TIMERS_RAISE),
             (TPARAM_SUITE % "2 entities (>= 1 Timer), <=3 yields", OPS_TPARAM, 2, 3, 1, 3, TIMERS_PARAM, False, dict(need_timer=True))]
@@ -1407,7 +1443,8 @@ def inline_suites (cfg):
           ("2 tasks, <=4 yields (<=2 each), every priority assignment in {1,0.5}", OPS_PRIO, 2, 4, 2, 2, False, True),
           ("3 tasks, <=4 yields (<=2 each), every priority assignment in {1,0.5}", OPS_PRIO, 3, 4, 1, 2, False, True),
           ("2 entities, <=4 yields, timers built with started=False and start()ed by a task", OPS_PARK, 2, 4, 2, 3, TIMERS_PARK),
-          ("2 tasks, <=4 yields, epoll hub (use_epoll=True over a scripted epoll object)", OPS_EPOLL, 2, 4, 2, 3, False, False, dict(epoll=True)),
+          ("2 tasks, <=4 yields, epoll hub (use_epoll=True over a scripted epoll object), fd environment incl. the peer hanging up", OPS_EPOLL, 2, 4, 2, 3, False, False, dict(epoll=True, hup=True)),
+          ("2 tasks, <=3 yields, select hub, the vocabulary of the epoll suite, fd environment incl. the peer hanging up", OPS_EPOLL, 2, 3, 1, 3, False, False, dict(hup=True)),
           ("2 entities, <=4 yields, what a step / a blocking operation's execute() / a timer callback / a sub-task raises: Exception, SystemExit, GeneratorExit, KeyboardInterrupt, other BaseException",
            OPS_RAISE_CTX, 2, 4, 2, 3, TIMERS_RAISE),
           ("3 entities, <=3 yields (<=2 each), what a step / a blocking operation's execute() / a timer callback / a sub-task raises", OPS_RAISE_CTX, 3, 3, 1, 2, TIMERS_RAISE),
@@ -1428,7 +1465,7 @@ HANDOFF_FOREIGN = ("CallBlocking.execute", "CallBlocking._proc", "ScheduleTask.r
 
 def T (*script): return ("t", tuple(script))
 
-# (program, {entity index: fd readiness offset})
+# (program, {entity index: fd readiness offset, or ["hup", offset]: the peer hangs up then})
 THR_PROGRAMS = [
   ((T("n1"), T("S2")), {}),
   ((T("Se", "0"), T("0", "0")), {0: 0.5}),
@@ -1481,6 +1518,10 @@ THR_PROGRAMS = [
   ((T("CB", "0"), T("n1")), {"thorough": True}),
   ((T("F"), T("0")), {"foreign": [[["sched", 0]]]}),
   ((T("F", "0"), T("0", "0")), {"foreign": [[["sched", 0]]], "thorough": True}),
+  # the peer of a selecting task's socket hangs up at +0.5 (select hub: readable; epoll hub: EPOLLIN|EPOLLHUP)
+  ((T("Se", "0"), T("n1")), {0: ["hup", 0.5], "thorough": True}),
+  ((T("Se", "0"), T("n1")), {0: ["hup", 0.5], "epoll": True, "thorough": True}),
+  ((T("Rx", "0"), T("n1")), {0: ["hup", 0.5], "epoll": True, "thorough": True}),
 ]
 
 
@@ -1559,7 +1600,7 @@ def run_threaded (ctx, prog, fd_at, funcs=HANDOFF, max_points=8000, keep_log=Fal
   w.on_sched_thread = lambda: S.cur is not None and S.cur.obj is sch._thread
   sch._random = w.rand            # 0.0: the priority-0.5 task is never deferred in this part
   w.build(sch)
-  instants = sorted(set(T0 + v for v in fd_at.values()))
+  instants = sorted(set(T0 + (v[1] if isinstance(v, (list, tuple)) else v) for v in fd_at.values()))
   if instants:
     ct = R.time
     def env ():
@@ -1912,7 +1953,7 @@ def run_epoll_part (cfg, rep):
 
 # ---------------------------------------------------------------------------------------------------
 def run (cfg):
-  global _SPACE, _STRIDE, _EPOLL
+  global _SPACE, _STRIDE, _EPOLL, _HUP
   rep = Report(PID, "model_checking")
   suites = inline_suites(cfg)
   counts = {}
@@ -1928,7 +1969,7 @@ def run (cfg):
       if one_suite is not None and si != one_suite: continue
       name, ops, nent, total, dev = su[:5]
       opts = su[-1] if isinstance(su[-1], dict) else {}
-      _EPOLL = bool(opts.get("epoll"))
+      _EPOLL = bool(opts.get("epoll")); _HUP = bool(opts.get("hup"))
       _SPACE = ProgSpace(ops, nent, total, *[a for a in su[5:] if not isinstance(a, dict)], need_timer=bool(opts.get("need_timer")))
       counts[name] = len(_SPACE)
       nchunks = max(1, cfg.workers * 8)
@@ -1972,7 +2013,9 @@ def run (cfg):
               "callbacks that require the args / kw they were registered with) - run on a real Scheduler.run() with a "
               "virtual clock and virtual select up to the horizon; entity 0 is a Task subclass with priority 0.5, the others Task(target=) with "
               "priority 1, except in the priority suites where every assignment of {1,0.5} to the tasks is enumerated; "
-              "environment: fd readiness instant {never,+0.5,+1.5} per selecting/receiving task (all explored); deviations (bounded): a run of "
+              "environment: fd readiness instant {never,+0.5,+1.5} per selecting/receiving task (all explored; in the epoll-hub suites - thorough: also in a "
+              "select-hub suite of the same vocabulary - a fourth fate: the peer hangs up at +0.5 without sending, i.e. select reports the socket readable, recv() "
+              "returns b'', epoll reports EPOLLIN|EPOLLHUP whatever it was asked for); deviations (bounded): a run of "
               "1..k high draws of Scheduler._random (k = number of tasks with priority < 1), virtual time per step 0.625 instead of 0, a send() "
               "accepting half / one byte / nothing (EAGAIN) instead of everything, a recv() handing out one byte instead of everything; a program with a raising task is also run with that task returning "
               "instead (differential).  PART 2 (controlled threads): %d programs of the same grammar (listed under bound.threaded_programs) under the "
@@ -1983,16 +2026,19 @@ def run (cfg):
               "Scheduler.schedule(blocked task) or Task.start(fast=True|False) of a new task, at once or at +1 s while the hub waits for a timer; an execution in "
               "which work is pending and only a polling timeout (CYCLE_MAXIMUM) or nothing at all could wake the scheduler is a lost wake-up.  PART 3: every sequence "
               "of <=2 (thorough 3) select(rl, wl, [], 0) calls on one EpollSelect (the hub's use_epoll select function), rl/wl over the subsets "
-              "of two real local sockets x each readable or not, against select.select.  PART 4 (the hub's wake-up pipe between two idles, inline hub): large "
-              "programs of the same grammar that pile up N wake-up bytes in one busy period - N tasks start()ed at once / a task woken N times by a sibling / N tasks "
-              "that sleep 1 s / N one-shot Timers - next to nothing / a sleeper / a task selecting on an fd / a recurring Timer, select and epoll hub, N over "
+              "of two real local sockets x each readable or not, against select.select.  PART 4 (the hub's wake-up pipe between two idles): large "
+              "programs of the same grammar that pile up N wake-up bytes in one busy period - N tasks start()ed at once with fast=True / with fast=False / a task "
+              "woken N times by a sibling / N tasks that sleep 1 s / N tasks in a Select with timeout 1 / N one-shot Timers - next to nothing / a sleeper / a task "
+              "selecting on an fd / a recurring Timer (quick: the last two only for the start, wake and sleep forms), inline select and epoll hub, N over "
               "0..3 and every value within -5..+1 of each multiple of 512 up to the bound (so that every count of pending bytes within 1 of a multiple of the "
-              "pinger's read size 1024 occurs, see bound.wake_up_pipe) and, for the wake form, within -5..+1 of a pipe's capacity (65536).  In PARTS 1, 2 and 4 the "
+              "pinger's read size 1024 occurs, see bound.wake_up_pipe) and, for the wake form, within -5..+1 of a pipe's capacity (65536); the sleep / Select / Timer "
+              "forms also with the threaded hub (select and epoll) under the controlled-thread explorer's default schedule, N in {1, 2} and within -3..+1 of "
+              "each multiple of 1024 up to the bound.  In PARTS 1, 2 and 4 the "
               "hub's pinger is the library's own (pox.lib.util.make_pinger -> PipePinger.ping / pongAll / fileno) on a virtual os.pipe (byte count, capacity "
               "65536, blocking ends): a read of the empty pipe / a write to the full one waits for another thread (PART 2: a scheduling point; inline hub on the "
               "calling thread: nobody else can make it proceed, the scheduler hangs).  distinct = distinct (per-entity step "
               "times, received values, final states, verdict)" % len(thr_programs(cfg)))
-  rep.assumptions = ["each selecting task has its own fd; an fd stays readable once readable",
+  rep.assumptions = ["each selecting task has its own fd; an fd stays readable once readable; a socket whose peer hangs up had nothing to read, and no task sends on it",
                      "run() executes on the scheduler's own thread (Scheduler._thread), as in POX",
                      "`yield None` (kills the scheduler by design) and schedule() of a task that waits in the hub are outside the vocabulary",
                      "what a task raises is reported on a working stdout / logger (a failing report channel is not an input)",
@@ -2059,7 +2105,7 @@ def replay (cfg, data):
       dev = [(i, t[2], t[0]) for i, t in enumerate(ctx.trace) if t[0]]
       extra = ("inline hub on a scheduler thread, wake-ups from other threads" if data["fd_at"].get("inline") else "threaded hub") + "; schedule deviations (choice index, at, thread picked): %r" % (dev,)
     else:
-      w = run_inline_checked(ctx, prog, bool(data.get("epoll")))
+      w = run_inline_checked(ctx, prog, bool(data.get("epoll")), bool(data.get("hup")))
       extra = "inline hub%s; environment deviations: %r" % (" (epoll)" if data.get("epoll") else "", [(l, c) for l, c in ctx.labelled() if c])
   finally:
     gc.enable()
